@@ -10,11 +10,15 @@ CHECK = {
                             "zone_Lambert93", "zone_CC42", "zone_CC50", "zone_LambertI", "zone_LambertIV",
                             "zone_LambertIIetendu",
                             "ellipsoid_sphere", "ellipsoid_random", "ellipsoid_Clarke1880IGN",
-                            "pt_origin", "pt_on_parallel", "pt_on_central_meridian", "pt_box_corner", "pt_generic"],
+                            "pt_origin", "pt_on_parallel", "pt_on_central_meridian", "pt_box_corner", "pt_generic",
+                            "sibling_converters_interleaved", "sibling_differs_in_k0",
+                            "sibling_differs_in_semi_major_axis", "sibling_differs_in_false_origin",
+                            "sibling_differs_in_longitude0", "sibling_differs_in_latitude0"],
     "required_oracles": ["conformal.h_over_k", "conformal.orthogonality", "scale.standard_parallel_k",
                          "scale.tangent_parallel_k", "origin.to_false_origin_m", "central_meridian.x_m",
                          "roundtrip.lat_rad", "roundtrip.lon_rad", "forward.vs_snyder_m"],
-    "required_counters": ["loop_hook_calls", "points", "roundtrip_points_north", "roundtrip_points_south"],
+    "required_counters": ["loop_hook_calls", "points", "roundtrip_points_north", "roundtrip_points_south",
+                          "points_evaluated_on_both_siblings_in_turn", "sibling_sets_with_bit_identical_n_and_e_but_other_c"],
     "rule": "case = one projection parameter set + 25 (quick) / 40 (thorough) points.  Sets: secant with standard "
             "parallels 1..20 deg apart inside 15..75 deg (ends and the 1 deg / 20 deg gaps included, either order), "
             "origin latitude on / between / up to 3 deg outside the parallels; tangent with latitude0 in 15..75 deg and "
@@ -23,10 +27,14 @@ CHECK = {
             "+-149 deg; false origins 0, Lambert-93's and random up to 1e7 m; the 15 named zones Lambert-93, CC42..CC50, "
             "Lambert I-IV, II etendu are the first 15 cases of every run and 3 % of the rest.  Points: the origin, "
             "the standard/tangent parallels (when inside the box), the central meridian, a box corner, and random points "
-            "in the +-8 deg x +-30 deg box incl. log-spaced offsets 1e-12.. from the origin.  non-trivial = parameter set "
-            "other than the two the unit tests pin a value for (CC46, Lambert I)",
+            "in the +-8 deg x +-30 deg box incl. log-spaced offsets 1e-12.. from the origin.  For 40 % of the cases a sibling "
+            "converter (same set but for ONE of k0 / latitude0 / false origin / semi-major axis at equal eccentricity / "
+            "longitude0) is alive too and every forward, stencil and inverse call is made on the two converters in turn "
+            "with bit-identical points (special points taken from either set), all oracles applied to each.  "
+            "non-trivial = parameter set other than the two the unit tests pin a value for (CC46, Lambert I), or any "
+            "interleaved pair",
     "level_text": "exploration: the real LambertConverter is built through its public secant / tangent constructors for "
-                  "4e3 (quick) / 3e5 (thorough) generated parameter sets of both hemispheres and evaluated at 1e5 / 1.2e7 points; "
+                  "2e4 (quick) / 3e5 (thorough) generated parameter sets of both hemispheres (40 % of them together with a sibling converter differing in one parameter, calls interleaved) and evaluated at 5e5 / 1.2e7 points; "
                   "at each point the two local scales and the angle between the images of meridian and parallel are measured by "
                   "4th-order finite differences of the library's own forward map against the long-double radii M and N cos(lat), "
                   "the forward image is compared with a differently factored long-double (Snyder) implementation, origin and "
@@ -40,5 +48,6 @@ CHECK = {
                     "finite-difference scales (Richardson, steps 2e-4 / 1e-4 rad) resolve 1e-11 relative; the stated equalities are tested to 1e-9",
                     "longitudes are not wrapped: longitude0 is kept within +-149 deg so that every point of the +-30 deg box is inside [-pi, pi]",
                     "a standard parallel farther than 8 deg from latitude0 is outside the quantified box and is not sampled for the k = 1 oracle",
+                    "cross-object interference is looked for on one thread only, between two converters alive at a time that differ in a single parameter",
                     "g++ 12 ASan+UBSan runtime; asserts live (no -DNDEBUG)"],
 }
